@@ -15,7 +15,7 @@ pub const FAULT_CLASSES: &[&str] = &[
     "ArithmeticOperatorNonInteger", "IndexingNonArray", "IndexingWithNonInteger", "UndefinedType", "NotAType",
     "RedeclarationAsType", "RedeclarationAsProcedure", "RedeclarationAsParameter", "RedeclarationAsVariable",
     "MustBeAReferenceParameter", "MainIsNotAProcedure", "MainMustNotHaveParameters", "MissingTrailingSemic", "MissingClosing",
-    "UnaryMinusNonInteger",
+    "UnaryMinusNonInteger", "AssignmentLevels",
 ];
 
 /// Inject one violation of rule `class` into a well-typed program.  Returns the new token list and the
@@ -54,6 +54,9 @@ pub fn inject(rng: &mut Rng, prog: &Prog, class: &str) -> Option<(Vec<Tok>, usiz
         "IfConditionMustBeBoolean" => Some((vec!["if", "(", "1", ")", ";"].iter().map(|s| s.to_string()).collect(), 2, 3, class)),
         "WhileConditionMustBeBoolean" => Some((vec!["while", "(", "1", "+", "2", ")", ";"].iter().map(|s| s.to_string()).collect(), 2, 5, class)),
         "AssignmentHasDifferentTypes" => int_var.clone().map(|x| (vec![x, ":=".into(), "1".into(), "<".into(), "2".into(), ";".into()], 0, 6, class)),
+        // an array variable indexed once against the whole array: two different types (also when both
+        // levels come from the same declaration: name equivalence is per array constructor)
+        "AssignmentLevels" => vars.iter().find(|v| dims(v) >= 1).map(|v| v.name.clone()).map(|a| (vec![a.clone(), "[".into(), "0".into(), "]".into(), ":=".into(), a, ";".into()], 0, 7, "AssignmentHasDifferentTypes")),
         "AssignmentRequiresIntegers" => arr_named.clone().map(|a| (vec![a.clone(), ":=".into(), a, ";".into()], 0, 4, class)),
         "OperatorDifferentTypes" => int_var.clone().map(|x| (vec![x, ":=".into(), "1".into(), "+".into(), "(".into(), "1".into(), "<".into(), "2".into(), ")".into(), ";".into()], 2, 9, class)),
         "ComparisonNonInteger" => Some((vec!["if", "(", "(", "1", "<", "2", ")", "=", "(", "2", "<", "3", ")", ")", ";"].iter().map(|s| s.to_string()).collect(), 2, 13, class)),
